@@ -486,6 +486,8 @@ def check(ctx):
     # raises AttributeError inside the constructor, where it is taken for "no such keyword"
     from .c17 import check_slots
     _attempt(ctx, check_slots)
+    from ..model import check_init_writes_own_keyword_only
+    _attempt(ctx, check_init_writes_own_keyword_only, 'C19-inits')
     # "pack() of the result is the encoding of those values": a described field left automatic is
     # computed by its before-pack hook, which every pack driver runs for every hook (C17-c)
     from .. import drivers as D
